@@ -63,8 +63,15 @@ class T2World(World):
     kind = "tt2"
 
     def __init__(self, sx, S, prefix="", rsv=(), oldlen=0, extra=16,
-                 old_lt_80=False, symbolic_window=None, terminator=None):
+                 old_lt_80=False, symbolic_window=None, terminator=None, nxp=None):
         self.sx = sx
+        self.nxp = nxp
+        if nxp is not None:
+            # NXP product: sizes from the data sheet, the vendor class is what
+            # nfc.tag.activate() returns (GET_VERSION answer, UID starts 04h)
+            version, pages, ccsize = tags.NXP_PRODUCTS[nxp]
+            S = ccsize * 8
+            extra = pages * 4 - 16 - S
         self.S = S
         phys = 16 + S + extra
         self.phys = phys
@@ -136,12 +143,17 @@ class T2World(World):
         self.old = sx.mkbytes([mem[b] for b in self.old_positions], False)
         # the NDEF message area: L byte(s) .. end of data area minus reserved
         self.area = set(b for b in range(p + 1, end) if b not in R)
-        self.sim = tags.Tt2Sim(mem)
+        if nxp is not None:
+            self.uid = b"\x04\x51\x7C\xA1\xE1\xED\x25"
+            self.sim = tags.Tt2Sim(mem, uid=self.uid, version=tags.NXP_PRODUCTS[nxp][0])
+        else:
+            self.uid = b"\x01\x02\x03\x04\x05\x06\x07"
+            self.sim = tags.Tt2Sim(mem)
         self.clf = tags.SimClf(self.sim)
         self.unit = 4
 
     def target(self):
-        return tags.tt2_target()
+        return tags.tt2_target(self.uid)
 
     def geometry(self, n):
         """reach labels describing where the reserved ranges fall relative to
